@@ -4,7 +4,7 @@
    over any life of a connection, every report carries the mean over the last two 10 s intervals of exactly the bytes of
    the blocks the task accepted (downloaded) and of the piece messages it wrote (uploaded), and the number of blocks it
    refused in the current interval. *)
-From Rdest Require Import Base BaseProofs Consts Wire Manager Handler Stats HStats Corr.Stats StatsProofs.
+From Rdest Require Import Base BaseProofs Consts Wire Manager Handler HandlerProofs Stats HStats Corr.Stats StatsProofs.
 From Coq Require Import ZifyBool ZifyN ZifyNat.
 Open Scope N_scope.
 
@@ -84,3 +84,53 @@ Section Refused.
     Ok (expected (trace_ops sha1 cf disk ovf s0 tr) None None 0 0 0).
   Proof. apply stats_exact_from_start. Qed.
 End Refused.
+
+(* ---- the same, stated about the task's own steps (hstep) ------------------------------------------------ *)
+Definition up_ops (acts : list action) : list sop :=
+  flat_map (fun a => match a with ASend (Piece _ _ k) => [SUp (len k)] | _ => [] end) acts.
+
+Section Task.
+  Variable sha1 : bytes -> bytes.
+  Variable cf : hconf.
+  Variable disk : bytes -> option bytes.
+
+  (* piece messages are written only in answer to a Request frame (HandlerProofs.actions_ok): no other step counts
+     anything as uploaded *)
+  Lemma no_up_ops ovf s ev r :
+    (forall ri rb rl, ev <> EFrame (Request ri rb rl)) -> up_ops (acts_of (hstep sha1 cf disk ovf s ev r)) = [].
+  Proof.
+    intros Hev. pose proof (actions_ok sha1 cf disk ovf s ev r eq_refl) as H.
+    induction (acts_of (hstep sha1 cf disk ovf s ev r)) as [|a acts IH]; [reflexivity|].
+    cbn [forallb] in H. apply andb_true_iff in H. destruct H as [Ha H].
+    unfold up_ops in *. cbn [flat_map]. rewrite (IH H).
+    destruct a as [m|c|h d]; try reflexivity. destruct m; try reflexivity.
+    exfalso. cbn [act_ok] in Ha. apply andb_true_iff in Ha. destruct Ha as [_ Ha].
+    destruct ev as [|m| | | |i|b]; try discriminate. destruct m; try discriminate. eapply Hev. reflexivity.
+  Qed.
+  Theorem no_upload_without_request ovf s ev r :
+    (forall ri rb rl, ev <> EFrame (Request ri rb rl)) ->
+    sum_up (stats_ops s ev (acts_of (hstep sha1 cf disk ovf s ev r))) = 0.
+  Proof.
+    intros Hev. rewrite uploads_counted.
+    pose proof (no_up_ops ovf s ev r Hev) as H. unfold up_ops in H.
+    induction (acts_of (hstep sha1 cf disk ovf s ev r)) as [|a acts IH]; [reflexivity|].
+    cbn [flat_map] in H. cbn [uploaded_bytes fold_right]. fold (uploaded_bytes acts).
+    destruct a as [m|c|h d]; try (apply IH; exact H). destruct m; try (apply IH; exact H). discriminate.
+  Qed.
+
+  (* a Piece frame: exactly one counter moves -- downloaded by the block's length when it answers an outstanding request
+     of the piece being assembled, unexpected otherwise (nothing when the frame does not get past the handshake gate) --
+     whatever the manager answers and whatever else the step does *)
+  Theorem task_block_counted ovf s i b blk r :
+    stats_ops s (EFrame (Piece i b blk)) (acts_of (hstep sha1 cf disk ovf s (EFrame (Piece i b blk)) r)) =
+    if piece_reaches_handler s then
+      (if match h_rx s with Some rx => is_requested rx i b blk | None => false end then [SDown (len blk)] else [SUnexpected])
+    else [].
+  Proof.
+    assert (Hn : forall ri rb rl, EFrame (Piece i b blk) <> EFrame (Request ri rb rl)) by (intros; discriminate).
+    pose proof (no_up_ops ovf s (EFrame (Piece i b blk)) r Hn) as F. unfold up_ops in F.
+    unfold stats_ops. rewrite F, app_nil_r.
+    destruct (piece_reaches_handler s); [|reflexivity]. destruct (h_rx s) as [rx|]; [|reflexivity].
+    destruct (is_requested rx i b blk); reflexivity.
+  Qed.
+End Task.
